@@ -65,7 +65,8 @@ Definition rot_right {A} (l : list A) : list A :=
 Fixpoint iter_rot {A} (m : nat) (l : list A) : list A :=
   match m with O => l | S k => iter_rot k (rot_right l) end.
 (* diag_idx in iteration i (i = 1 .. N-1): [False] + list(deque after i-1 rotations) *)
-Definition diag_idx (i : nat) : list bool := false :: iter_rot (i - 1) [false; true; true].
+Definition diag_idx (i : nat) : list bool :=
+  match i with O => [false; false; true; true] | S m => false :: iter_rot m [false; true; true] end.
 (* decay_amplitudes[..., diag_idx, diag_idx].sum(axis=-1) *)
 Definition masked_diag_sum (n : nat) (mask : list bool) (G : RM) : T :=
   sumn Op n (fun m => if nth m mask false then rmget G m m else o0 Op).
@@ -111,11 +112,15 @@ Definition choi_entry (n : nat) (S : RM) (basis : list Matc) (a c b dd : nat) : 
   csumn Op n (fun i => csumn Op n (fun j =>
     cscal Op (rmget S i j) (cmul Op (mget Op (nthm basis j) b a) (mget Op (nthm basis i) c dd)))).
 Definition liouville_to_choi (n : nat) (S : RM) (basis : list Matc) : Matc :=
-  mbuild (d * d) (d * d) (fun r s => choi_entry n S basis (r / d) (r mod d) (s / d) (s mod d)).
+  List.concat (build d (fun a => build d (fun c =>
+    List.concat (build d (fun b => build d (fun dd => choi_entry n S basis a c b dd)))))).
 
-(* liouville_is_cCP: Omega[::d+1] = 1/sqrt d ; Q = 1 - Omega Omega^T ; Q choi Q *)
-Definition omega_vec (r : nat) : T :=
-  if Nat.eqb (r mod (d + 1)) 0 then odiv Op (o1 Op) (osqrt Op (dnat Op d)) else o0 Op.
+(* liouville_is_cCP: Omega[::d+1] = 1/sqrt d (the entries (a,a) of the flattened index a*d + c) ;
+   Q = 1 - Omega Omega^T ; Q choi Q *)
+Definition omega_list : list T :=
+  List.concat (build d (fun a => build d (fun c =>
+    if Nat.eqb a c then odiv Op (o1 Op) (osqrt Op (dnat Op d)) else o0 Op))).
+Definition omega_vec (r : nat) : T := nth r omega_list (o0 Op).
 Definition Qproj : Matc :=
   mbuild (d * d) (d * d) (fun r s =>
     cofr Op (osub Op (if Nat.eqb r s then o1 Op else o0 Op) (omul Op (omega_vec r) (omega_vec s)))).
